@@ -137,6 +137,21 @@ func StdCheck(e *Explorer, w *worker, prev, ns *State, j int, label string, merg
 			}
 			add("C02", fp, fmt.Sprintf("n%d _deleted=%v, reference %v", j, del, ref.Deleted))
 		}
+		// counters keep counting on a deleted document (it stays readable with showDeleted): an increment
+		// merged after - or concurrently with - the delete is still part of the sum
+		for _, f := range cfg.Counters {
+			if !ref.Deleted {
+				break
+			}
+			got, _ := row[f].(int64)
+			if got != ref.Counters[f] {
+				kind := "counter-lost-on-deleted-document"
+				if got > ref.Counters[f] {
+					kind = "counter-doubled-on-deleted-document"
+				}
+				add("C02", kind, fmt.Sprintf("n%d (deleted document) %s=%d, sum of merged increments %d", j, f, got, ref.Counters[f]))
+			}
+		}
 		if !ref.Deleted {
 			for _, f := range cfg.Counters {
 				got, _ := row[f].(int64)
